@@ -26,7 +26,7 @@ import traceback
 from . import dsl
 from . import env  # noqa: F401
 from .canon import canon
-from .model import (Crash, ModelBuild, ModelBuilder, ModelFS, Node, Prev, UserError, events_equal,
+from .model import (Crash, CrashBase, ModelBuild, ModelBuilder, ModelFS, Node, Prev, UserError, events_equal,
                     index_forest, substitute_real_meta)
 from .runner import failure
 from .sandbox import LONG_NAME, Sandbox, model_tree, snapshot
@@ -64,6 +64,7 @@ class Harness:
         self.last_committed = None
         self.mutated_since_commit = False
         self.ever_outputs = set()
+        self.active_root = 0            # which root function variant the next build runs (['root', i] steps)
         self.stale_allowed = False      # C13: a content change hidden from METADATA was made (legitimately served stale)
         self.after_clean = False
         self.commits = 0
@@ -104,6 +105,11 @@ class Harness:
             elif op == 'clean':
                 self._twin_state = None
                 fails = self.clean()
+            elif op == 'root':
+                if int(step[1]) != self.active_root:
+                    self.mutated_since_commit = True        # the user edited the root function: not an unchanged rebuild
+                self.active_root = int(step[1])
+                fails = []
             elif op == 'sweep':
                 fails = self.sweep(step[1], step[2] if len(step) > 2 else None)
             elif op == 'save':
@@ -149,6 +155,8 @@ class Harness:
         if op == 'rm' and (p == self.R):
             return False
         if op == 'write':
+            if os.path.islink(p):
+                os.remove(p)
             if os.path.isdir(p):
                 if self._holds_cache(p):
                     return False
@@ -159,7 +167,8 @@ class Harness:
             except OSError:
                 return False
             with open(p, 'wb') as f:
-                f.write(('ext%s' % s[2]).encode())
+                # tag 2: a file longer than the library's 1024-byte hashing block (2800 bytes)
+                f.write(('ext%s' % s[2]).encode() * (700 if s[2] == 2 else 1))
             mt = sb.next_mtime()
             os.utime(p, ns=(mt, mt))
             return True
@@ -180,6 +189,8 @@ class Harness:
             except OSError:
                 return False
         if op == 'touch':
+            if os.path.islink(p):
+                return False
             if os.path.isfile(p):
                 mt = sb.next_mtime()
                 os.utime(p, ns=(mt, mt))
@@ -187,7 +198,7 @@ class Harness:
             return False
         if op == 'rewrite_keep_meta':
             # change the content, keep size and mtime_ns (C13: invisible to METADATA, visible to HASH)
-            if os.path.isfile(p):
+            if os.path.isfile(p) and not os.path.islink(p):
                 st = os.stat(p)
                 with open(p, 'rb') as f:
                     data = f.read()
@@ -204,7 +215,7 @@ class Harness:
             return False
         if op == 'rewrite_same':
             # rewrite identical content with a new mtime (C13: visible to METADATA, invisible to HASH)
-            if os.path.isfile(p):
+            if os.path.isfile(p) and not os.path.islink(p):
                 with open(p, 'rb') as f:
                     data = f.read()
                 with open(p, 'wb') as f:
@@ -213,6 +224,17 @@ class Harness:
                 os.utime(p, ns=(mt, mt))
                 return True
             return False
+        if op == 'symlink':
+            # p becomes a symbolic link to the regular file s[2] (C13: inputs reached through links)
+            tgt = sb.ap(s[2])
+            if not os.path.isfile(tgt) or os.path.islink(tgt) or os.path.lexists(p) or tgt == p:
+                return False
+            try:
+                os.makedirs(os.path.dirname(p), exist_ok=True)
+                os.symlink(tgt, p)
+            except OSError:
+                return False
+            return True
         if op == 'swap':
             # file <-> directory swap
             if os.path.isdir(p):
@@ -264,7 +286,7 @@ class Harness:
     def _save_state(self):
         self._saved = {'fs': self.sb.save(), 'prev': self.prev, 'step': self.step, 'clock': self.sb.clock,
                        'last_committed': self.last_committed, 'last': dict(self.last),
-                       'mutated': self.mutated_since_commit}
+                       'mutated': self.mutated_since_commit, 'active_root': self.active_root}
         self._twin = None
         self._want_twin = True
 
@@ -277,6 +299,7 @@ class Harness:
         self.last_committed = sv['last_committed']
         self.last = dict(sv['last'])
         self.mutated_since_commit = sv['mutated']
+        self.active_root = sv['active_root']
         self._twin_state = 'restored'
 
     # ---- build ---------------------------------------------------------------------------------------
@@ -291,6 +314,9 @@ class Harness:
             ctx_step = 100000 + self.step * 1000 + crash_at      # unique mtimes, consumes no step number
         FileBuilder = FB()
         prog = self.prog
+        if self.active_root and self.active_root <= len(prog.get('alt_roots', [])):
+            # the user edited the (uncached) root build function between builds
+            prog = dict(prog, root=prog['alt_roots'][self.active_root - 1])
         if fail_at is not None:
             prog = dict(prog)
             r = list(prog['root'])
@@ -340,9 +366,11 @@ class Harness:
             from . import sched
             sched.enable()
             rctx.extra['sched_spec'] = sched_spec
+        if isinstance(mode, dict) and mode.get('base'):
+            rctx.extra['crash_base'] = True
         try:
             rret = ('ok', FileBuilder.build_versioned(self.cache, BUILD_NAME, versions, dsl.root_func(rctx)))
-        except Exception as e:
+        except (Exception, CrashBase) as e:
             real_exc = e
             rret = ('exc', dsl.exc_class(e))
             rctx.extra['tb'] = traceback.format_exc()
@@ -464,7 +492,7 @@ class Harness:
                 rctx.raised_objs[-1] if isinstance(real_exc, UserError) and rctx.raised_objs else None)
             if isinstance(real_exc, UserError) and any(real_exc is o for o in rctx.raised_objs):
                 expected_obj = real_exc      # several tasks may raise: any of the raised objects is "the same object"
-            if expected_obj is not None and real_exc is not expected_obj and isinstance(real_exc, (UserError, Crash)):
+            if expected_obj is not None and real_exc is not expected_obj and isinstance(real_exc, (UserError, Crash, CrashBase)):
                 fails.append(self._fail('C02.exc_identity', 'propagated exception is not the raised object', info))
 
         if rctx.extra.get('fault_swallowed'):
